@@ -141,6 +141,7 @@ def run(run, replay=None):
     run.regenerate(["Kkc", "Dic", "DicGrammar", "Server", "KanaAlpha"])
     if run.build_props():
         run.audit()
+    S.conc_check(run)
     bindir = S.build_binaries(run)
     if bindir is None:
         return
